@@ -133,12 +133,23 @@ impl DirEntry {
     }
 }
 
+/// Stands in for `std::fs::ReadDir`: the listing of one directory.
+pub struct ReadDir(DirEntries);
+
+impl Iterator for ReadDir {
+    type Item = std::io::Result<DirEntry>;
+    fn next(&mut self) -> Option<Self::Item> {
+        self.0.next().map(|e| e.map(DirEntry))
+    }
+}
+
 /// Stands in for `std::fs::read_dir` (same shape: a fallible open, then fallible entries).
-pub fn read_dir(path: &Path) -> std::io::Result<impl Iterator<Item = std::io::Result<DirEntry>>> {
+pub fn read_dir<P: AsRef<Path>>(path: P) -> std::io::Result<ReadDir> {
+    let path = path.as_ref();
     let simulated = DIR_LISTER.with(|l| l.borrow().as_ref().and_then(|list| list(path)));
     let entries: DirEntries = match simulated {
         Some(r) => r?,
         None => Box::new(std::fs::read_dir(path)?.map(|e| e.map(|e| e.path()))),
     };
-    Ok(entries.map(|e| e.map(DirEntry)))
+    Ok(ReadDir(entries))
 }
